@@ -12,6 +12,7 @@ let () =
     | ["INIT"; k] -> init := int_of_string k; Printf.printf "INIT %d\n" !init
     | "A" :: ok :: _ -> let (a', r) = alloc (nat_of_int !init) !a (ok = "1") in a := a';
         (match r with Some (i, j) -> Printf.printf "A %s -> %d %d |" ok (int_of_nat i) (int_of_nat j); dump !a | None -> print_endline "A -> NULL")
+    | ["X"; i; j] -> a := prune !a (nat_of_int (int_of_string i)) (nat_of_int (int_of_string j)); Printf.printf "X %s %s |" i j; dump !a
     | ["F"; i; j] -> a := free !a (nat_of_int (int_of_string i)) (nat_of_int (int_of_string j)); Printf.printf "F %s %s |" i j; dump !a
     | _ -> print_endline l
   done with End_of_file -> ()
